@@ -54,6 +54,19 @@ func (sw *shardWriter) write(line []byte) {
 	}
 }
 
+// writeTo appends a line to a given shard (for families whose events span several consecutive lines).
+func (sw *shardWriter) writeTo(i int, line []byte) {
+	sw.mu.Lock()
+	defer sw.mu.Unlock()
+	sw.ws[i].Write(line)
+	sw.ws[i].WriteByte('\n')
+	sw.counts[i]++
+	sw.count++
+	if len(sw.samples) < 4 && len(line) < 600 {
+		sw.samples = append(sw.samples, string(line))
+	}
+}
+
 func (sw *shardWriter) close() error {
 	for i := range sw.ws {
 		if err := sw.ws[i].Flush(); err != nil {
